@@ -246,10 +246,17 @@ def case_info(col, p):
     boots = [dadi.Spectrum(base * (1 + 0.1 * np.sin(i * (0.7 + 0.37 * b) + b * b))) for b in range(8)]
     p0 = pstar * np.array([1.02, 0.97, 1.01][:k])
     ns = data.sample_sizes
+    sel = np.ones(NENT, bool)
+    sel[0] = sel[-1] = False
+    if p.get('extra_mask'):
+        # entries the user chose to ignore (e.g. singletons): masked in the data and the bootstraps, not in the model
+        for fs_ in [data] + boots:
+            fs_.mask[1] = fs_.mask[7] = True
+        sel[1] = sel[7] = False
     # parameters actually differentiated: (p, theta) when multinom
     if multinom:
         model = np.asarray(f(p0, ns, None).data)
-        theta = float(np.asarray(data.data)[1:-1].sum() / model[1:-1].sum())
+        theta = float(np.asarray(data.data)[sel].sum() / model[sel].sum())
         pe = np.concatenate([p0, [theta]])
         Mx = theta * model
         D = np.vstack([theta * dMf(p0), model[None, :]])
@@ -261,7 +268,7 @@ def case_info(col, p):
         pe = p0.copy()
         Mx = np.asarray(f(p0, ns, None).data)
         D, D2 = dMf(p0), d2Mf(p0)
-    H, grads, g_data = closed_forms(pe, data.data, [b.data for b in boots], Mx, D, D2)
+    H, grads, g_data = closed_forms(pe, data.data, [b.data for b in boots], Mx, D, D2, sel)
     kk = len(pe)
     if log:
         Hl = np.zeros_like(H)
@@ -301,6 +308,46 @@ def case_info(col, p):
         elif errs[0] > 1e-6 and not (errs[0] / max(errs[1], 1e-300) > 2.0 and errs[1] / max(errs[2], 1e-300) > 2.0):
             col.violation('C19:%s:not_second_order' % name, info, {'relerr_by_eps': errs})
         col.observe(name, errs[-1] / bound)
+    if not log:
+        eps = 2.5e-3
+        # every set of nested parameters (LRT_adjust = |N| / trace(J_NN inv(H_NN)))
+        for r in range(1, k + 1):
+            for nested in itertools.combinations(range(k), r):
+                nested = list(nested)
+                Godambe.cache.clear()
+                got = Godambe.LRT_adjust(f, [20], boots, list(p0), data, nested, multinom=multinom, eps=eps)
+                col.tick(transitions=1)
+                Hn = Hc[np.ix_(nested, nested)]
+                Jn = sum(np.outer(g[nested], g[nested]) for g in gc) / len(gc)
+                ex = len(nested) / float(np.trace(Jn @ np.linalg.inv(Hn)))
+                tol = 2e-3 * max(1.0, float(np.linalg.cond(Hn)) * 1e-3)
+                if not abs(got / ex - 1) <= tol:
+                    col.violation('C19:LRT_adjust:closed_form', dict(info, nested=nested), {'got': float(got), 'exact': ex, 'tol': tol})
+                else:
+                    col.observe('LRT_adjust_sets', abs(got / ex - 1) / tol)
+    if not log and not multinom:
+        # bootstraps with their own relative theta: gradient of ll(adj*M, boot) is sum (boot/M - adj) dM
+        eps = 2.5e-3
+        adj = [1.0 + 0.07 * ((b % 3) - 1) + 0.01 * b for b in range(len(boots))]
+        m_ = Mx[sel]
+        gadj = [np.array([np.sum((np.asarray(bt.data)[sel] / m_ - a_) * D[q][sel]) for q in range(kk)]) for bt, a_ in zip(boots, adj)]
+        Jadj = sum(np.outer(g, g) for g in gadj) / len(gadj)
+        Gadj = Hc @ np.linalg.inv(Jadj) @ Hc
+        Godambe.cache.clear()
+        _, H_before = Godambe.FIM_uncert(f, [20], list(p0), data, multinom=False, eps=eps, return_FIM=True)
+        _, got_G, _h = Godambe.GIM_uncert(f, [20], boots, list(p0), data, multinom=False, eps=eps, return_GIM=True, boot_theta_adjusts=adj)
+        _, got_G2, _h2 = Godambe.GIM_uncert(f, [20], list(reversed(boots)), list(p0), data, multinom=False, eps=eps, return_GIM=True, boot_theta_adjusts=list(reversed(adj)))
+        _, H_after = Godambe.FIM_uncert(f, [20], list(p0), data, multinom=False, eps=eps, return_FIM=True)      # same cache: must not have been polluted
+        col.tick(transitions=4)
+        e_ = float(np.max(np.abs(got_G - Gadj)) / np.max(np.abs(Gadj)))
+        bound = 2e-3 * max(1.0, float(np.linalg.cond(Jadj)) * 1e-3)
+        if not e_ <= bound:
+            col.violation('C19:GIM_uncert:boot_theta_adjusts:closed_form', info, {'relerr': e_, 'bound': bound})
+        if not np.allclose(got_G, got_G2, rtol=1e-9 * max(1.0, float(np.linalg.cond(Jadj))), atol=0):
+            col.violation('C19:bootstrap_order_dependence', dict(info, what='boot_theta_adjusts reversed'), '')
+        if not np.array_equal(H_before, H_after):
+            col.violation('C19:result_depends_on_call_history', dict(info, what='FIM after GIM with boot_theta_adjusts'),
+                          {'maxrel': float(np.max(np.abs(H_after - H_before)) / np.max(np.abs(H_before)))})
     # permutation invariance of the bootstraps + LRT / Wald / score closed forms (not for log)
     if not log:
         nested = [k - 1]
@@ -342,7 +389,7 @@ def case_info(col, p):
                 if not np.allclose(vals, base_vals, rtol=tol, atol=tol):
                     col.violation('C19:bootstrap_order_dependence', dict(info, perm=perm), {'got': vals, 'base': base_vals, 'tol': tol})
     col.tick(states=1, traces=1)
-    col.distinct('nontrivial', ('info', k, kind, multinom, log))
+    col.distinct('nontrivial', ('info', k, kind, multinom, log, bool(p.get('extra_mask'))))
 
 
 def case_chi2(col, p):
@@ -472,6 +519,8 @@ def run(ctx):
             for multinom in ((False, True) if kind == 'shape' else (False,)):      # models with an overall scale parameter are degenerate under multinom
                 for log in (False, True):
                     cases.append({'kind': 'info', 'k': k, 'model': kind, 'multinom': multinom, 'log': log})
+                    if not log:
+                        cases.append({'kind': 'info', 'k': k, 'model': kind, 'multinom': multinom, 'log': log, 'extra_mask': True})
     cases.append({'kind': 'chi2'})
     cases.append({'kind': 'history', 'depth': 2 if ctx.quick else 3})
     from mc.evidence import Collector
